@@ -182,6 +182,41 @@ def image(path, ren):
     return out
 
 
+def near_tie_at_pruning_boundary(mt_a, mt_b, where, keymap=None):
+    """Evidence for the recorded finding 'ulp-level near-tie at the pruning boundary': the two lattices first differ in WHICH
+    candidates of one layer the width pruning postponed, and every candidate that is postponed in one run only is, in the run
+    that postponed it, within a few ulps of (but not equal to) the least probable candidate that was kept - an exact tie in the
+    other run, broken by one rounding in this one (twin edges a->b / b->a give d and d+ulp; x**2 through libm pow is not
+    bitwise homogeneous under scaling by powers of two)."""
+    i, k = where
+
+    def layer(mt):
+        col = (mt.lattice or {}).get(i)
+        if col is None or k >= len(col.o):
+            return {}
+        return {key: e for key, e in col.o[k].items() if not e.stop}
+    A, B = layer(mt_a), layer(mt_b)
+    if keymap:
+        A = {tuple(keymap(key)): e for key, e in A.items()}
+    if set(A) != set(B):
+        return False
+    found = False
+    for key in A:
+        pa, pb = A[key].delayed > mt_a.expand_now, B[key].delayed > mt_b.expand_now
+        if pa == pb:
+            continue
+        lay, mt_, e = (A, mt_a, A[key]) if pa else (B, mt_b, B[key])
+        kept = [x.logprob for x in lay.values() if not x.delayed > mt_.expand_now]
+        if not kept:
+            return False
+        vmin = min(kept)
+        gap = abs(e.logprob - vmin)
+        if not (0 < gap <= 8 * 2.220446049250313e-16 * max(abs(vmin), abs(e.logprob), 1e-300)):
+            return False
+        found = True
+    return found
+
+
 def translation_borderline(case, mt_base):
     cfg = case["cfg"]
     model = MapModel(case["map"])
@@ -192,6 +227,16 @@ def translation_borderline(case, mt_base):
     if thr:
         for p in tr:
             ds = [model.pt_edge(p, e)[0] for e in model.edges] + [model.dist(p, q) for q in model.coords.values()]
+            for d in ds:
+                for t in thr:
+                    if abs(d - t) <= 1e-6 * t:
+                        return True
+    if thr and cfg.get("non_emitting"):
+        # non-emitting states are cut off on their distance to the SEGMENT between two consecutive observations
+        from .. import refgeo as rg
+        for p, q in zip(tr, tr[1:]):
+            ds = [float(rg.pl_segseg(model.coords[a], model.coords[b], tuple(p[:2]), tuple(q[:2]))) for a, b in model.edges]
+            ds += [float(rg.pl_point_segment(c_, tuple(p[:2]), tuple(q[:2]))[0]) for c_ in model.coords.values()]
             for d in ds:
                 for t in thr:
                     if abs(d - t) <= 1e-6 * t:
@@ -287,6 +332,11 @@ def _check_case(ctx, case):
                 div = oracles.first_lattice_divergence(mt0, mt1, keymap=lambda key: [ren.get(x, x) if j < len(key) - 2 else x for j, x in enumerate(key)])
                 mech = oracles.order_dependence_mechanism(src["cfg"], div)
                 text += f" | first lattice divergence: {div}"
+            if not mech and t.startswith("scale") and src["cfg"]["width"]:
+                div = oracles.first_lattice_divergence(mt0, mt1)
+                if div and div["kind"] == "delayed" and near_tie_at_pruning_boundary(mt0, mt1, div["where"]):
+                    ctx.violation("C16:scale:near-tie-within-ulps-at-the-pruning-boundary", wit, f"{t}: {kind}: {text} | {div}")
+                    return
             if mech:
                 ctx.violation(f"C16:order-dependent:{mech}", wit, f"{t}: {kind}: {text}")
             else:
@@ -328,6 +378,11 @@ def replay_case(ctx, wit):
         if mech:
             ctx.violation(f"C16:order-dependent:{mech}", wit, f"{t}: base idx {c0['idx']} best {c0['best']!r}; transformed idx {c1['idx']} best {c1['best']!r}")
             return
+        if t.startswith("scale") and wit["base"]["cfg"].get("width"):
+            div = oracles.first_lattice_divergence(mt0, mt1)
+            if div and div["kind"] == "delayed" and near_tie_at_pruning_boundary(mt0, mt1, div["where"]):
+                ctx.violation("C16:scale:near-tie-within-ulps-at-the-pruning-boundary", wit, f"{t}: base idx {c0['idx']} best {c0['best']!r}; transformed idx {c1['idx']} best {c1['best']!r} | {div}")
+                return
         ctx.violation(f"C16:{t.rstrip('-0123456789')}:replayed-difference", wit, f"base idx {c0['idx']} best {c0['best']!r}; transformed idx {c1['idx']} best {c1['best']!r}")
 
 
